@@ -111,6 +111,13 @@ def inject_custom(gen, cid, o):
         ext = o.setdefault("extensions", {})
         if isinstance(ext, dict):
             ext["x-c01-ext"] = {"k": r.choice(["v", 1, [1, 2]]), "a": {"z": 1, "b": 2}}
+    if c["ver"] == "2.1" and any(s["name"] == "extensions" for s in c["slots"]) and r.random() < 0.35:
+        # an unregistered top-level property extension: every extra member is then an extension property
+        ext = o.setdefault("extensions", {})
+        if isinstance(ext, dict):
+            ext["extension-definition--" + gen.uuid()] = {"extension_type": "toplevel-property-extension"}
+            for n in r.sample(["rank", "toxicity", "b_y", "aa", "zz_top", "m1", "m2", "q_long_property_name", "k9"], r.randint(1, 6)):
+                o[n] = r.choice([1, "v", True, [1, 2], {"a": 1}])
 
 
 
@@ -147,12 +154,33 @@ def has_nonascii_digit_key(x):
     return False
 
 
+SORTED_EXT_ORDER = [False]
+
+
+def probe_ext_order():
+    """does the code store the extra properties next to an unregistered toplevel-property-extension sorted?"""
+    names = ["zz", "b_y", "aa", "m2", "k9", "q_long", "toxicity", "x_foo"]
+    d = {"type": "identity", "spec_version": "2.1", "id": "identity--00000000-0000-4000-8000-000000000005",
+         "created": "2020-01-01T00:00:00.000Z", "modified": "2020-01-01T00:00:00.000Z", "name": "n",
+         "extensions": {"extension-definition--00000000-0000-4000-8000-000000000006": {"extension_type": "toplevel-property-extension"}}}
+    for n in names:
+        d[n] = 1
+    res = common.run_impl("c01_corr_impl", [{"op": "parse", "cid": "2.1/Identity", "data": d, "allow": False, "opts": [{}]}], procs=1)[0]
+    import re
+    got = [m for m in re.findall(r"([a-z_0-9]+):i1,", res)]
+    return got == sorted(names)
+
+
 def correspondence(run, cases, variants):
     """Model (run + serialize_value under each option set) against the library, ordered members compared."""
     ccases = []
     for c in cases:
         if c.get("derive"):
             continue        # derived objects are not inputs of the JSON-level model
+        if has_unregistered_toplevel_ext(c["data"]) and not SORTED_EXT_ORDER[0]:
+            continue        # the pinned code stores these properties in Python set order (C01-extension-property-order-...)
+        if has_unregistered_toplevel_ext(c["data"]) and "custom_properties" in c["data"]:
+            continue        # the shared model keeps extension properties and custom_properties entries in two sorted runs
         opts = [o for o in c["opts"] if "ensure_ascii" not in o]
         ccases.append({"op": "parse" if c["route"] == "parse" else "construct", "cid": c["cid"], "data": c["data"],
                        "allow": c.get("allow", False), "opts": opts})
@@ -229,6 +257,10 @@ def gen_cases(run, per_class):
             if custom:
                 inject_custom(gen, cid, o)
             route = "parse" if r.random() < 0.6 else "construct"
+            if custom and route == "construct" and r.random() < 0.3:
+                # the constructor's custom_properties= argument (legacy spelling of custom properties)
+                o["custom_properties"] = {n: copy.deepcopy(r.choice(CUSTOM_VALUES)) for n in r.sample(CUSTOM_NAMES21, 2)
+                                          if n not in o}
             case = {"route": route, "cid": cid, "data": o, "allow": custom or r.random() < 0.15,
                     "opts": pick_opts(r, full=(i % 5 == 0))}
             cases.append(case)
@@ -248,6 +280,11 @@ FIXED_CASES = [
      "data": {"type": "marking-definition", "id": "marking-definition--00000000-0000-4000-8000-000000000003",
               "created": "2023-03-28T08:24:21.1Z", "definition_type": "statement", "definition": {"statement": "x"}},
      "allow": False, "opts": [{}, {"pretty": True}]},
+    # a 2.0 bundle given an observable dictionary with an id (which parse() takes for a 2.1 observable)
+    {"route": "construct", "cid": "2.0/Bundle",
+     "data": {"id": "bundle--00000000-0000-4000-8000-000000000004", "spec_version": "2.0",
+              "objects": [{"type": "ipv4-addr", "id": "ipv4-addr--ff26c055-6336-5bc5-b98d-13d6226742dd", "value": "198.51.100.3"}]},
+     "allow": False, "opts": [{}, {"pretty": True}]},
     # a year below 1000 (C15's zero padding)
     {"route": "parse", "cid": "2.1/Identity",
      "data": {"type": "identity", "spec_version": "2.1", "id": "identity--00000000-0000-4000-8000-000000000002",
@@ -256,12 +293,24 @@ FIXED_CASES = [
 ]
 
 
+def has_unregistered_toplevel_ext(d):
+    ext = d.get("extensions")
+    return isinstance(ext, dict) and any(
+        k.startswith("extension-definition--") and isinstance(v, dict) and v.get("extension_type") == "toplevel-property-extension"
+        for k, v in ext.items())
+
+
 def classify(case, res, f):
     """Narrow finding ids for defects of the unchanged code."""
     d = case["data"]
-    if (f["kind"] == "reserialize-differs" and case["cid"] == "2.0/MarkingDefinition" and case.get("derive")
+    if (f["kind"] == "reserialize-differs" and res.get("cls") == "2.0/MarkingDefinition" and case.get("derive")
             and isinstance(d.get("created"), str) and "." in d["created"] and d.get("definition_type") != "tlp"):
         return "C01-v20-marking-created-precision-lost-on-rebuild"
+    if f["kind"] == "reserialize-differs" and has_unregistered_toplevel_ext(d):
+        return "C01-extension-property-order-is-set-iteration-order"
+    if f["kind"] == "reparse-refused" and case["cid"] == "2.0/Bundle" and any(
+            isinstance(m, dict) and "id" in m and "spec_version" not in m for m in (d.get("objects") or []) if isinstance(d.get("objects"), list)):
+        return "C01-v20-bundle-admits-member-it-cannot-reparse"
     if f["kind"] == "reparse-refused" and case["cid"] == "2.1/Bundle" and "objects" not in case["data"]:
         return "C01-empty-bundle-21-not-reparsed"
     return None
@@ -276,6 +325,8 @@ def check(run):
         "non-trivial = the object was created" % per_class)
     model_ok = sc.translate_and_build(run, "Props/C01.v")
     variants = sc.detect_variants(run)
+    SORTED_EXT_ORDER[0] = probe_ext_order()
+    run.coverage["extension_property_order_sorted"] = SORTED_EXT_ORDER[0]
     cases = FIXED_CASES + gen_cases(run, per_class)
     results = common.run_impl("c01_impl", cases)
     created = 0
